@@ -144,7 +144,7 @@ namespace
         g_np[0] = &na;
         g_np[1] = &nb;
         g_np[2] = &nc;
-        std::string name = x.str("cont") + ":" + x.str("elem") + (x.num("np") ? ":np" : "");
+        std::string name = x.str("cont") + ":" + x.str("elem") + (x.num("np") ? ":np" : x.num("any") ? ":any" : "");
         if (x.str("cont") == "pool")
         {
             int n = static_cast<int>(x.num("n", 40));
@@ -167,7 +167,7 @@ namespace
         {
             // type-erased std_allocator: equality must still mean "refers to the same allocator object"
             fm::any_std_allocator<int> a(la), b(lb), c(la);
-            Ev("cbox").s("name", name).b("ok", true).i("prop", 7);
+            Ev("cbox").s("name", name).b("ok", true).i("prop", 7).b("single", false);
             Ev("ceq").i("a", 0).i("c", 1).i("eq", a == b ? 1 : 0).i("ba", 0).i("bc", 1);
             Ev("ceq").i("a", 0).i("c", 2).i("eq", a == c ? 1 : 0).i("ba", 0).i("bc", 0);
             Ev("ceq").i("a", 1).i("c", 2).i("eq", b == c ? 1 : 0).i("ba", 1).i("bc", 0);
@@ -177,15 +177,17 @@ namespace
         auto it = registry().find(name);
         if (it == registry().end())
         {
-            Ev("cbox").s("name", name).b("ok", false).i("prop", 0);
+            Ev("cbox").s("name", name).b("ok", false).i("prop", 0).b("single", false);
             return;
         }
         std::unique_ptr<IBoxSet> box(it->second());
         IBoxSet&                 b = *box;
-        Ev("cbox").s("name", name).b("ok", true).i("prop", b.propagation());
+        // single=1: every container of the execution is bound to the same allocator object
+        bool single = x.num("single") != 0;
+        Ev("cbox").s("name", name).b("ok", true).i("prop", b.propagation()).b("single", single);
         int                      v = 0;
         b.make(0, 0);
-        b.make(1, 1);
+        b.make(1, single ? 0 : 1);
         state(b, "init", 0, 1);
         for (auto& c : x.cmds)
         {
@@ -195,8 +197,8 @@ namespace
             {
                 if (!b.has(a))
                 {
-                    b.make(a, d % 2);
-                    state(b, "new", a, d % 2);
+                    b.make(a, single ? 0 : d % 2);
+                    state(b, "new", a, single ? 0 : d % 2);
                 }
             }
             else if (!b.has(a))
